@@ -265,6 +265,7 @@ impl World {
             O::Collect => self.collect(),
             O::Quiesce => self.quiesce(),
             O::CfgAuto | O::CfgBuffered | O::CfgPercent => self.cfg_op(op.code, a[0]),
+            O::CfgReplace => self.cfg_replace(a[0]),
             O::Register => {
                 if let Some(h) = self.resolve_root(a[0], live_node) {
                     let cap = if a[1] < 0 { None } else { self.resolve_root(a[1], any) };
